@@ -644,6 +644,7 @@ func main() {
 		{"rabbitSrc", []string{"RabbitSrc.lean"}, genRabbitSrc},
 		{"kinesisLoopSrc", []string{"KinesisLoopSrc.lean"}, genKinesisLoopSrc},
 		{"workerLoops", []string{"WorkerLoops.lean", "S3WorkerSrc.lean"}, genWorkerLoops},
+		{"parserSrc", []string{"ParserSrc.lean"}, genParserSrc},
 	}
 	status := map[string]interface{}{}
 	failed := 0
